@@ -11,8 +11,9 @@ import (
 
 // VerifItem is one queued address.
 type VerifItem struct {
-	Addr   *net.TCPAddr
-	Source peersource.Source
+	Addr     *net.TCPAddr
+	Source   peersource.Source
+	Priority uint32 // the priority the address was queued with
 }
 
 // VerifDump returns the queued addresses in ascending priority order.
@@ -20,7 +21,7 @@ func (d *AddrList) VerifDump() []VerifItem {
 	var out []VerifItem
 	d.peerByPriority.Ascend(func(i btree.Item) bool {
 		p := i.(*peerAddr)
-		out = append(out, VerifItem{Addr: p.addr, Source: p.source})
+		out = append(out, VerifItem{Addr: p.addr, Source: p.source, Priority: p.priority})
 		return true
 	})
 	return out
